@@ -18,3 +18,83 @@ def c09(tier):
         pol = dict(max_array=7, max_nested_array=4, max_map=2, max_text=2, max_depth=5,
                    max_total_entries=2, max_total_items=14)
     return [("jobs_decode", "decode_job", dict(prop="C09", tname=t, policy=pol)) for t in STRUCTS]
+
+
+def _dj(prop, tname, pol, kinds=(), tag=""):
+    return ("jobs_decode", "decode_job", dict(prop=prop, tname=tname, policy=pol, kinds=kinds, tag=tag))
+
+
+def c08(tier):
+    """Header maps: standalone with two (three) entries so that every rule interaction and order is
+    reached; as unprotected header and inside a protected bstr of a carrier with shallower maps."""
+    if tier == "quick":
+        hdr = dict(max_array=3, max_map=2, max_text=2, max_depth=3, max_total_entries=2, max_total_items=5)
+        car = dict(max_array=3, max_nested_array=3, max_map=1, max_text=2, max_depth=4, max_total_entries=1,
+                   max_total_items=6)
+    else:
+        hdr = dict(max_array=3, max_map=3, max_text=3, max_depth=4, max_total_entries=3, max_total_items=8)
+        car = dict(max_array=3, max_nested_array=3, max_map=2, max_text=2, max_depth=5, max_total_entries=2,
+                   max_total_items=9)
+    return [_dj("C08", "Header", hdr), _dj("C08", "CoseEncrypt0", car, tag=":carrier")]
+
+
+def c10(tier):
+    if tier == "quick":
+        key = dict(max_array=3, max_map=2, max_text=1, max_depth=3, max_total_entries=2, max_total_items=3)
+        ks = dict(max_array=2, max_nested_array=2, max_map=2, max_text=1, max_depth=4, max_total_entries=3,
+                  max_total_items=4)
+    else:
+        key = dict(max_array=3, max_map=3, max_text=2, max_depth=3, max_total_entries=3, max_total_items=3)
+        ks = dict(max_array=3, max_nested_array=2, max_map=2, max_text=1, max_depth=4, max_total_entries=4,
+                  max_total_items=5)
+    return [_dj("C10", "CoseKey", key), _dj("C10", "CoseKeySet", ks)]
+
+
+def c12(tier):
+    """Duplicate labels on decode, every pair of positions, every nesting position."""
+    k = ("dup",)
+    if tier == "quick":
+        m2 = dict(max_array=3, max_map=2, max_text=2, max_depth=3, max_total_entries=2, max_total_items=3)
+        m3 = dict(max_array=2, max_map=3, max_text=1, max_depth=3, max_total_entries=3, max_total_items=2)
+        nest = dict(max_array=4, max_nested_array=3, max_map=2, max_text=1, max_depth=5, max_total_entries=2,
+                    max_total_items=8)
+    else:
+        m2 = dict(max_array=3, max_map=3, max_text=2, max_depth=3, max_total_entries=3, max_total_items=3)
+        m3 = dict(max_array=2, max_map=4, max_text=1, max_depth=3, max_total_entries=4, max_total_items=2)
+        nest = dict(max_array=5, max_nested_array=4, max_map=2, max_text=1, max_depth=6, max_total_entries=2,
+                    max_total_items=12)
+    return [_dj("C12", "Header", m2, k), _dj("C12", "ClaimsSet", m2, k), _dj("C12", "CoseKey", m3, k),
+            _dj("C12", "CoseSign1", nest, k, ":nested"), _dj("C12", "CoseSign", nest, k, ":nested"),
+            _dj("C12", "CoseEncrypt", nest, k, ":nested"), _dj("C12", "CoseSignature", nest, k, ":nested")]
+
+
+def c15(tier):
+    k = ("range",)
+    if tier == "quick":
+        m = dict(max_array=3, max_map=1, max_text=1, max_depth=3, max_total_entries=1, max_total_items=3)
+        key = dict(max_array=2, max_map=2, max_text=1, max_depth=3, max_total_entries=2, max_total_items=2)
+    else:
+        m = dict(max_array=3, max_map=2, max_text=1, max_depth=3, max_total_entries=2, max_total_items=4)
+        key = dict(max_array=2, max_map=3, max_text=1, max_depth=3, max_total_entries=3, max_total_items=2)
+    arr = dict(max_array=5, max_nested_array=3, max_map=0, max_text=1, max_depth=4, max_total_entries=0,
+               max_total_items=13)
+    nest = dict(max_array=4, max_nested_array=3, max_map=1, max_text=1, max_depth=5, max_total_entries=1,
+                max_total_items=8)
+    return [_dj("C15", "Header", m, k), _dj("C15", "ClaimsSet", m, k), _dj("C15", "CoseKey", key, k),
+            _dj("C15", "PartyInfo", arr, k), _dj("C15", "SuppPubInfo", arr, k),
+            _dj("C15", "CoseKdfContext", arr, k), _dj("C15", "CoseSign", nest, k, ":nested")]
+
+
+def c18(tier):
+    if tier == "quick":
+        cl = dict(max_array=2, max_map=2, max_text=1, max_depth=3, max_total_entries=2, max_total_items=2)
+        kdf = dict(max_array=6, max_nested_array=4, max_map=1, max_text=1, max_depth=4, max_total_entries=1,
+                   max_total_items=16)
+    else:
+        cl = dict(max_array=2, max_map=3, max_text=2, max_depth=3, max_total_entries=3, max_total_items=2)
+        kdf = dict(max_array=7, max_nested_array=4, max_map=1, max_text=1, max_depth=4, max_total_entries=1,
+                   max_total_items=18)
+    sub = dict(max_array=5, max_nested_array=3, max_map=1, max_text=1, max_depth=4, max_total_entries=1,
+               max_total_items=8)
+    return [_dj("C18", "ClaimsSet", cl), _dj("C18", "CoseKdfContext", kdf), _dj("C18", "PartyInfo", sub),
+            _dj("C18", "SuppPubInfo", sub)]
